@@ -1549,6 +1549,8 @@ class Executor:
                 return base.fields[name]
             if base.cls == "Match" and name in ("start", "group"):
                 return BoundMethod(base, name)
+            if base.cls == "Utf8Decoder" and name in ("decode", "reset"):
+                return BoundMethod(base, name)
             m = self.class_attr(base, name)
             if m is not None:
                 return m
@@ -2225,11 +2227,19 @@ class Executor:
                     L = lens[lnames.index(nm)]
                     items = []
                     for i in range(L):
-                        v = fresh_int(f"{nm}{i}")
+                        v = fresh_int(f"{nm.replace('.', '_')}{i}")
                         h.ctx.add(z3.And(v >= 0, v <= 255))
                         items.append(VInt(v))
-                    h.env[nm] = VList(items, fresh=True)
-                    h.env[nm].bytes = True
+                    nl = VList(items, fresh=True)
+                    nl.bytes = True
+                    if "." in nm:
+                        oname, fname = nm.split(".", 1)       # a byte list held in an object's field
+                        obj = h.env.get(oname)
+                        if not isinstance(obj, VObj):
+                            raise Unsupported(f"loop contract names {nm} but {oname} is not an object")
+                        obj.fields[fname] = nl
+                    else:
+                        h.env[nm] = nl
                 elif nm in h.env:
                     h.env[nm] = self.havoc(h, nm, h.env[nm])
             for g in spec.ghost:
@@ -2251,13 +2261,29 @@ class Executor:
             self.sol.push()
             try:
                 body_st = havocked(base, lens)
-                body_st.assume(spec.invariant(self, body_st))
+                if os.environ.get("PYVC_TRACE_INV"):
+                    print("INV", lens, str(z3.simplify(spec.invariant(self, body_st)))[:3000], flush=True)
+                    if isinstance(spec.tree, ast.BoolOp):
+                        for sub in spec.tree.values:
+                            try:
+                                print("   ", ast.unparse(sub), "=>", str(z3.simplify(self.truth(body_st, spec._eval(self, body_st, sub))))[:400], flush=True)
+                            except Exception as e:
+                                print("   ", ast.unparse(sub), "=> EXC", e, flush=True)
+                inv_t = spec.invariant(self, body_st)
+                if z3.is_false(z3.simplify(inv_t)) and any(lens):
+                    # a contradictory invariant would make every obligation of this case vacuous
+                    raise Unsupported(f"loop invariant is unsatisfiable for list lengths {lens} at {self.where(s)}")
+                body_st.assume(inv_t)
                 conds = list(self.eval_cond(s.test, body_st))
                 if len(conds) != 1 or isinstance(conds[0][0], Raised):
                     raise Unsupported("loop condition forks or raises")
                 body_st.assume(conds[0][0])
                 if not body_st.feasible():
+                    if os.environ.get("PYVC_TRACE"):
+                        print("LOOP-CASE infeasible", self.cur_func, lens, flush=True)
                     continue
+                if os.environ.get("PYVC_TRACE"):
+                    print("LOOP-CASE explored", self.cur_func, lens, flush=True)
                 for flow, val, s2 in self.exec_block(s.body, 0, body_st):
                     if flow in ("next", "continue"):
                         for s3 in spec.settle(self, s2, None):
@@ -2301,7 +2327,7 @@ class Executor:
             if it.conc is not None:
                 return [lit(c) for c in it.conc] if it.kind == "str" else [VInt(c) for c in it.conc]
             n = is_conc_int(it.len())
-            if n is not None and n <= 8:
+            if n is not None and n <= 12:
                 return [V.char_at(st.ctx, it, iv(k)) for k in range(n)]
             return None
         if isinstance(it, (VTuple, VList)):
